@@ -86,7 +86,7 @@ def shard(col, shard_i, ngrammars, ninputs, full):
             g, kind = G.lrec_grammar(rng)
             texts = G.lrec_inputs(rng, ninputs, g=g)
             col.count('grammar.lrec.' + kind)
-        elif gi % 3 == 1:
+        elif gi % 6 == 3:
             # leaf rules whose values are plain strings, so that rejecting / raising actions fire (C06's family)
             from props.c06 import simple_rule_grammar
             g = simple_rule_grammar(rng)
@@ -103,7 +103,7 @@ def shard(col, shard_i, ngrammars, ninputs, full):
             g['rules'] = [(n, (d + ['nomemo']) if (i > 0 and rng.random() < 0.4 and 'nomemo' not in d) else d, e) for i, (n, d, e) in enumerate(g['rules'])]
             col.count('grammar.with-nomemo')
         semspec = ('none', {})
-        if gi % 3 == 1:
+        if gi % 3 == 1 or gi % 6 == 3:
             from props.c06 import targeted_semspec
             semspec = targeted_semspec(rng, g)
             col.count('grammar.with-semantics')
